@@ -28,6 +28,8 @@ package tubes
 //@   pure
 //@   ensures err == nil ==> f != nil && fresh(f) && int(f.dataLength) == len(f.data) && len(f.data) + 12 <= (len(b) < 12 ? 12 : len(b))
 //@   ensures len(b) < 10 ==> err != nil
+// (C08) the payload is a copy of its own: a frame parked in a reassembly queue must survive the next read into the same buffer
+//@   ensures err == nil && len(f.data) > 0 ==> fresh(f.data)
 // (C18) decoding: a message that holds its header and the data it announces is accepted, and the fields are these bytes
 //@   ensures len(b) >= 12 && (int(b[2]) << 8) + int(b[3]) <= len(b) - 12 ==> err == nil
 //@   ensures err == nil && len(b) >= 12 ==> f.tubeID == b[0] && f.dataLength == (uint16(b[2]) << 8) | uint16(b[3])
@@ -172,3 +174,103 @@ package tubes
 //@        len(q.data) == len(p.data) && bytes(q.data) == bytes(p.data)
 //@   ensures (q.flags.REQ <==> p.flags.REQ) && (q.flags.RESP <==> p.flags.RESP) && (q.flags.REL <==> p.flags.REL) &&
 //@        (q.flags.ACK <==> p.flags.ACK) && (q.flags.FIN <==> p.flags.FIN) && (q.flags.RTR <==> p.flags.RTR)
+
+// ===========================================================================
+// C08: in-order, duplicate-free reassembly on the receiving side of a reliable tube
+// ===========================================================================
+// chunk(r, n): the data the peer's sender put into (64-bit) frame number n of the tube r belongs to - a logical
+// function.  streamUpTo(r, n): the concatenation chunk(r,1) ++ ... ++ chunk(r,n-1), i.e. the written stream
+// up to frame n.  What the receiver hands to readers must always be streamUpTo(r, windowStart).
+//@ spec chunk(r Ref, n uint64) Bytes
+//@ spec streamUpTo(r Ref, n uint64) Bytes
+//@ axiom C08.stream_def: forall r Ref, n uint64 :: streamUpTo(r, n + 1) == bcat(streamUpTo(r, n), chunk(r, n))
+
+// The reassembly heap, abstracted to the set of items it holds (container/heap is assumed; its ordering only
+// matters for progress, not for the prefix property).
+//@ ghost pqItems map[Ref]set[Ref]
+//@ func heap.Push(h heap.Interface, x any)
+//@   assume container/heap over tubes.PriorityQueue: adds the item (and maintains item.index, the slice and its order)
+//@   modifies pqItems, families("F|tubes.pqItem|index|", "F|tubes.receiver|fragments|", "M|*tubes.pqItem|")
+//@   ensures pqItems == update(old(pqItems), ref(h), add(old(pqItems)[ref(h)], ref(x)))
+//@ func heap.Pop(h heap.Interface) (x any)
+//@   assume container/heap over tubes.PriorityQueue: removes and returns one item that was in the heap (the least one when the heap order holds)
+//@   modifies pqItems, families("F|tubes.pqItem|index|", "F|tubes.receiver|fragments|", "M|*tubes.pqItem|")
+//@   ensures typeis(x, "*hop.computer/hop/tubes.pqItem") && ref(x) != nil && old(pqItems)[ref(h)][ref(x)]
+//@   ensures pqItems == update(old(pqItems), ref(h), remove(old(pqItems)[ref(h)], ref(x)))
+//@ func heap.Init(h heap.Interface)
+//@   assume container/heap
+//@   modifies families("F|tubes.pqItem|index|", "M|*tubes.pqItem|")
+
+// every queued item carries the bytes of the frame number it is filed under, in an array of its own
+//@ macro qinv(r) = forall x *pqItem :: pqItems[ref(&r.fragments)][ref(x)] ==> bytes(x.value) == chunk(ref(r), x.priority) && ref(x.value) != ref(r.buffer.buf)
+//@ macro delivered(r) = bufAll[ref(r.buffer)] == streamUpTo(ref(r), r.windowStart)
+
+//@ func (r *receiver) processIntoBuffer() (fin bool)
+//@   property C08
+//@   atomic
+//@   requires r.buffer != nil && qinv(r) && delivered(r)
+//@   modifies r.windowStart, r.ackNo, *r.buffer, r.buffer.buf[:], bufAll, pqItems, families("F|tubes.pqItem|index|", "F|tubes.receiver|fragments|", "M|*tubes.pqItem|"), opaque(r)
+//@   ensures qinv(r) && delivered(r)
+//@   ensures r.ackNo - old(r.ackNo) == r.windowStart - old(r.windowStart)
+//@   loop 1
+//@     invariant r.buffer != nil && r.buffer == old(r.buffer)
+//@     invariant qinv(r)
+//@     invariant delivered(r)
+//@     invariant r.ackNo - old(r.ackNo) == r.windowStart - old(r.windowStart)
+
+// unwrapFrameNo recovers the 64-bit number of a frame from its 32-bit wire number: for the frame's true number F
+// (congruent to the wire number and within 2^31 of the receiver's acknowledgement number) the result is F.
+//@ func (r *receiver) unwrapFrameNo(frameNo uint32) (res uint64)
+//@   property C08
+//@   pure
+//@   inline
+//@   logical F uint64
+//@   requires F % 4294967296 == uint64(frameNo) && (F >= r.ackNo ? F - r.ackNo : r.ackNo - F) < 2147483648
+//@   ensures res == F
+
+//@ func frameInBounds(wS uint64, wE uint64, f uint64) (ok bool)
+//@   inline
+
+// receive files the frame's data under the frame's true number (or drops it) and then delivers what has become
+// contiguous: the queue invariant and "delivered bytes == written stream up to windowStart" are maintained.
+//@ func (r *receiver) receive(p *frame) (fin bool, err error)
+//@   property C08
+//@   atomic
+//@   logical F uint64
+//@   requires r.buffer != nil && qinv(r) && delivered(r)
+//@   requires F % 4294967296 == uint64(p.frameNo) && (F >= r.ackNo ? F - r.ackNo : r.ackNo - F) < 2147483648
+//@   requires bytes(p.data) == chunk(ref(r), F) && ref(p.data) != ref(r.buffer.buf)
+//@   modifies r.windowStart, r.ackNo, *r.buffer, r.buffer.buf[:], bufAll, pqItems, families("F|tubes.pqItem|index|", "F|tubes.receiver|fragments|", "M|*tubes.pqItem|"), opaque(r)
+//@   ensures qinv(r) && delivered(r)
+
+// read hands the caller exactly what ONE bytes.Buffer.Read on the tube's reassembly buffer produced into the caller's
+// slice - i.e. (by that function's contract) the next unread bytes of the delivered stream, in order - and reports
+// end of stream only when that buffer is empty.
+//@ func (d *common.DeadlineChan) Recv() (v struct{}, err error)
+//@   assume channel receive with deadline (C17): blocks; other goroutines run meanwhile
+//@   modifies *
+//@ func (r *receiver) read(buf []byte) (n int, err error)
+//@   property C08
+//@   requires r.buffer != nil
+//@   ensures called(bytes.Buffer.Read) ==> callcount(bytes.Buffer.Read) == 1 && n == resultof(bytes.Buffer.Read, n) && same(argof(bytes.Buffer.Read, p), buf)
+//@   ensures called(bytes.Buffer.Read) && err != nil ==> len(argof(bytes.Buffer.Read, b).buf) - argof(bytes.Buffer.Read, b).off == 0
+//@   ensures !called(bytes.Buffer.Read) ==> n == 0 && err != nil
+
+// Sending side (partial): write frames everything it accepts - nothing stays unframed - and uses one frame number per
+// frame; FIN takes the next frame number, so it is ordered after all data written before the close.
+//@ func (s *sender) framesToSend(rto bool, startIndex int) (n int)
+//@   inline
+//@ func (s *sender) write(b []byte) (n int, err error)
+//@   property C08
+//@   atomic
+//@   requires len(s.buffer) == 0
+//@   ensures err == nil ==> n == len(b) && len(s.buffer) == 0 && s.frameNo - old(s.frameNo) == uint32(len(s.frames) - old(len(s.frames)))
+//@   ensures err != nil ==> s.frameNo == old(s.frameNo) && len(s.frames) == old(len(s.frames)) && len(s.buffer) == 0
+//@   loop 1
+//@     invariant s.frameNo - old(s.frameNo) == uint32(len(s.frames) - old(len(s.frames))) && len(s.frames) >= old(len(s.frames))
+//@ func (s *sender) sendFin() (err error)
+//@   property C08
+//@   atomic
+//@   ensures err == nil ==> s.finSent && s.finFrameNo == old(s.frameNo) && s.frameNo == old(s.frameNo) + 1 && len(s.frames) == old(len(s.frames)) + 1 &&
+//@        s.frames[len(s.frames)-1].frame.flags.FIN && s.frames[len(s.frames)-1].frame.frameNo == old(s.frameNo)
+//@   ensures err != nil ==> old(s.finSent) && s.frameNo == old(s.frameNo)
